@@ -14,8 +14,11 @@ import (
 	"crypto/x509"
 	"crypto/x509/pkix"
 	"encoding/json"
+	"encoding/pem"
 	"fmt"
 	"math/big"
+	"os"
+	"path/filepath"
 	"strings"
 	"testing"
 	"time"
@@ -46,6 +49,9 @@ type APlan struct {
 	// Prior: before every judged call the same Attestor attests a genuine device (issued by the first root, same
 	// serial number and subject as the judged device certificate) with an honestly signed slot certificate
 	Prior bool `json:"prior,omitempty"`
+	// FromFiles: the Attestor is built by NewAttestor from two PEM files (one root each, with text around the
+	// PEM blocks) instead of from a ready-made pool
+	FromFiles bool `json:"from_files,omitempty"`
 }
 
 var digestInfo = map[string][2][]byte{ // with NULL, without NULL
@@ -91,6 +97,7 @@ func genA(r *sim.Rng, tier string) any {
 	p.Val = r.Intn(256)
 	p.CritExt = r.Bool(0.12)
 	p.Prior = r.Bool(0.3)
+	p.FromFiles = r.Bool(0.3)
 	p.LapseSec = int64(2*r.Range(50, 5000) + 1)
 	switch r.Intn(4) {
 	case 0:
@@ -366,6 +373,23 @@ func execA(t *testing.T, raw json.RawMessage) *sim.Outcome {
 	pool.AddCert(root1)
 	pool.AddCert(root2)
 	att := yubiattest.NewAttestorWithCAPool(pool)
+	if p.FromFiles {
+		dir, err := os.MkdirTemp(os.Getenv("VERIF_TMP"), "a-")
+		if err != nil {
+			o.Fail("harness.tmp", "mkdtemp", 0, "%v", err)
+			return o
+		}
+		defer os.RemoveAll(dir)
+		f1, f2 := filepath.Join(dir, "piv-root.pem"), filepath.Join(dir, "u2f-root.pem")
+		os.WriteFile(f1, append([]byte("Yubico PIV Root CA (simulated)\n"), pem.EncodeToMemory(&pem.Block{Type: "CERTIFICATE", Bytes: root1.Raw})...), 0o644)
+		os.WriteFile(f2, append(pem.EncodeToMemory(&pem.Block{Type: "CERTIFICATE", Bytes: root2.Raw}), []byte("\n# end\n")...), 0o644)
+		att, err = yubiattest.NewAttestor(f1, f2)
+		if err != nil {
+			o.Fail("C06.rejected_valid", "attestor_construction", 0, "NewAttestor refused two well-formed root files: %v", err)
+			return o
+		}
+		o.Probe("attestor_from_pem_files")
+	}
 
 	var devPriv crypto.Signer
 	var rsaPriv *rsa.PrivateKey
